@@ -234,6 +234,16 @@ int URI_FUNC(ComposeQueryEngine)(URI_CHAR * dest,
 		valueRequiredChars = worstCase * (int)valueLen;
 
 		if (dest == NULL) {
+			/* Refuse totals beyond INT_MAX rather than letting them wrap around */
+			const int itemRequiredChars = ampersandLen + ((value == NULL) ? 0 : 1);
+			if ((keyRequiredChars > INT_MAX - itemRequiredChars)
+					|| ((value != NULL)
+						&& (valueRequiredChars > INT_MAX - itemRequiredChars - keyRequiredChars))
+					|| (itemRequiredChars + keyRequiredChars
+						+ ((value == NULL) ? 0 : valueRequiredChars)
+						> INT_MAX - (*charsRequired))) {
+				return URI_ERROR_OUTPUT_TOO_LARGE;
+			}
 			(*charsRequired) += ampersandLen + keyRequiredChars + ((value == NULL)
 						? 0
 						: 1 + valueRequiredChars);
